@@ -417,13 +417,25 @@ fn keep_alive(rng: &mut Rng, fixed: Option<(u64, Option<u64>)>) -> Case {
     let mut progs = vec![Prog::default()];
     let mut events = vec![(0u64, Act::Push(req(0)))];
     let mut idle_from = 0u64;
+    let mut n_before = 1usize;
     if slow {
         let g = grid(rng.range(500, (k * 1000 + 1500) as usize) as u64);
+        // half of the time a quick request is pipelined in front of the slow one, in one segment:
+        // a response has then already been written when the slow one is in progress
+        let front = rng.chance(1, 2) && cfg.keep_alive_s.is_some();
+        let mut p = Prog::default();
         if rng.chance(1, 2) {
-            progs[0].post_gate = Some(0);
+            p.post_gate = Some(0);
         } else {
-            progs[0].kind = BodyKind::BodyStream;
-            progs[0].steps = vec![BStep::Data(fill_data(5, 1)), BStep::Wait(0), BStep::Data(fill_data(5, 2))];
+            p.kind = BodyKind::BodyStream;
+            p.steps = vec![BStep::Data(fill_data(5, 1)), BStep::Wait(0), BStep::Data(fill_data(5, 2))];
+        }
+        if front {
+            progs.push(p);
+            events[0] = (0, Act::Push([req(0), req(1)].concat()));
+            n_before = 2;
+        } else {
+            progs[0] = p;
         }
         events.push((g, Act::Gate(0, 1)));
         idle_from = g;
@@ -442,12 +454,11 @@ fn keep_alive(rng: &mut Rng, fixed: Option<(u64, Option<u64>)>) -> Case {
         idle_from = t2;
     }
     // optionally a second request well inside the first keep-alive period: the timer restarts
-    let mut n_before = 1usize;
     if rng.chance(1, 3) && cfg.keep_alive_s.is_some() && k >= 2 {
         let a = idle_from + grid(rng.range(100, 900) as u64);
-        events.push((a, Act::Push(req(1))));
+        events.push((a, Act::Push(req(n_before))));
         idle_from = a;
-        n_before = 2;
+        n_before += 1;
     }
     let next_abs = next.map(|n| idle_from + n);
     if let Some(a) = next_abs {
@@ -523,7 +534,8 @@ fn graceful(rng: &mut Rng, phase_fixed: Option<&'static str>) -> Case {
         }
         "handler" | "queued" => {
             // request 0 arrives before the signal, its handler answers after it
-            progs.push(Prog { post_gate: Some(0), ..Default::default() });
+            // (a third of the time through the service's Err path: an error response is a response)
+            progs.push(Prog { post_gate: Some(0), fail: rng.chance(1, 3), ..Default::default() });
             events.push((grid(rng.range(0, (sig - 50) as usize) as u64), Act::Push(req(0))));
             events.push((sig + grid(rng.range(50, 800) as u64), Act::Gate(0, 1)));
             respond_after.push(0);
@@ -538,7 +550,7 @@ fn graceful(rng: &mut Rng, phase_fixed: Option<&'static str>) -> Case {
         "upload" => {
             // the handler is reading a request body when the signal fires; the rest of the body
             // arrives afterwards and must still reach it: the in-flight request is answered
-            progs.push(Prog::default());
+            progs.push(Prog { fail: rng.chance(1, 4), ..Default::default() });
             let chunked = rng.chance(1, 2);
             let head: &[u8] = if chunked { b"POST /r0 HTTP/1.1\r\nHost: t\r\nTransfer-Encoding: chunked\r\n\r\n5\r\nhello\r\n" } else { b"POST /r0 HTTP/1.1\r\nHost: t\r\nContent-Length: 11\r\n\r\nhello" };
             let rest: &[u8] = if chunked { b"6\r\n world\r\n0\r\n\r\n" } else { b" world" };
